@@ -45,9 +45,58 @@ def both_given(ctx):
                                   dict(rep, error=type(e).__name__))
 
 
+def rho_grid(ctx):
+    """rho selects int(round(N*rho)) distinct nodes — identically in every simulator that takes rho; a grid of (N, rho)
+    with exact halves (round-half-even), values just below / above a half, 0 and 1.  Direct calls with the real
+    (seeded) generators; the expected count is the property's own expression evaluated in Python."""
+    import random
+    import networkx as nx, numpy as np, EoN
+    grid = [(5, 0.5), (25, 0.1), (10, 0.05), (50, 0.25), (4, 0.375), (4, 0.625), (6, 0.25), (7, 0.5), (3, 0.5),
+            (8, 0.0625), (9, 0.5), (10, 0.25), (12, 0.125), (5, 0.3), (5, 0.1), (20, 0.075), (6, 1.0), (11, 0.5), (13, 0.5)]
+    calls = {
+        "fast_SIR": lambda G, rho, full: EoN.fast_SIR(G, 1.0, 1.0, rho=rho, tmax=0.5, return_full_data=full),
+        "fast_SIS": lambda G, rho, full: EoN.fast_SIS(G, 1.0, 1.0, rho=rho, tmax=0.5, return_full_data=full),
+        "Gillespie_SIR": lambda G, rho, full: EoN.Gillespie_SIR(G, 1.0, 1.0, rho=rho, tmax=0.5, return_full_data=full),
+        "Gillespie_SIS": lambda G, rho, full: EoN.Gillespie_SIS(G, 1.0, 1.0, rho=rho, tmax=0.5, return_full_data=full),
+        "basic_discrete_SIR": lambda G, rho, full: EoN.basic_discrete_SIR(G, 0.5, rho=rho, tmax=2, return_full_data=full),
+        "basic_discrete_SIS": lambda G, rho, full: EoN.basic_discrete_SIS(G, 0.5, rho=rho, tmax=2, return_full_data=full),
+        "percolation_based_discrete_SIR": lambda G, rho, full: EoN.percolation_based_discrete_SIR(G, 0.5, rho=rho, tmax=2, return_full_data=full),
+        "discrete_SIR": lambda G, rho, full: EoN.discrete_SIR(G, args=(0.5,), rho=rho, tmax=2, return_full_data=full),
+        "fast_nonMarkov_SIR": lambda G, rho, full: EoN.fast_nonMarkov_SIR(G, trans_time_fxn=lambda u, v: 1.0, rec_time_fxn=lambda u: 2.0,
+                                                                          rho=rho, tmax=0.5, return_full_data=full),
+        "fast_nonMarkov_SIS": lambda G, rho, full: EoN.fast_nonMarkov_SIS(G, trans_time_fxn=lambda u, v, d: [1.0], rec_time_fxn=lambda u: 2.0,
+                                                                          rho=rho, tmax=0.5, return_full_data=full),
+    }
+    for sim, fn in calls.items():
+        for k, (n, rho) in enumerate(grid):
+            seed = ctx.rng.randrange(10 ** 6)
+            G = nx.gnp_random_graph(n, 0.4, seed=seed)
+            want = int(round(n * rho))
+            full = k % 2 == 1
+            rep = dict(entry=sim, stream="rho-grid", n=n, rho=rho, want=want, seed=seed, return_full_data=full)
+            random.seed(seed); np.random.seed(seed)
+            ctx.case(rep, nontrivial=True)
+            ctx.count("rho-grid:" + sim)
+            try:
+                r = fn(G, rho, full)
+            except Exception as e:
+                ctx.violation("%s raised %s for rho=%r on %d nodes" % (sim, type(e).__name__, rho, n), dict(rep, error=repr(e)[:200]))
+                continue
+            if full:
+                st = r.get_statuses(time=r.t()[0])
+                i0 = sum(1 for v in st.values() if v == "I")
+                s0 = sum(1 for v in st.values() if v == "S")
+            else:
+                i0, s0 = int(r[2][0]), int(r[1][0])
+            if i0 != want or s0 != n - want:
+                ctx.violation("%s: rho=%r on N=%d starts with %d infected / %d susceptible nodes, int(round(N*rho)) = %d"
+                              % (sim, rho, n, i0, s0, want), rep)
+
+
 def run(ctx):
     drv = ctx.drv = common.LeanDriver()
     both_given(ctx)
+    rho_grid(ctx)
     per = ctx.scale(120, 600)
     reqs, metas = [], []
     nreqs, nmetas = [], []
